@@ -51,6 +51,10 @@ type c20case struct {
 	Items  []string `json:"items"`            // R<s> read, W<s> write, C<s> cacheable read (s = slot index 0..2), E slot-less ECHO, M MULTI, X EXEC
 	Static string   `json:"static,omitempty"` // cache: "" none, "all", "alt" (even members) marked ToStaticTTL
 	Script [][3]int `json:"script"`           // member index, attempt (1-based), outcome kind
+	// NoOwner: the client's slot table has no owner for the batch's slots when the call starts, so the call itself
+	// refreshes the topology and picks again (only combined with scripts without MOVED, which would schedule a
+	// wall-clock driven background refresh)
+	NoOwner bool `json:"no_owner,omitempty"`
 }
 
 type c20member struct {
@@ -82,9 +86,9 @@ func (run *c20run) violate(sig, detail string) {
 }
 
 type c20world struct {
-	mu    sync.Mutex
-	run   *c20run
-	slots RedisResult
+	mu     sync.Mutex
+	run    *c20run
+	slots  RedisResult
 	nslots int
 }
 
@@ -600,6 +604,25 @@ func c20runCase(env *c20env, c c20case) (*c20run, [][2]string) {
 	var res []RedisResult
 	var p any
 	var site string
+	if c.NoOwner {
+		cl.sc.mu.Lock()
+		occupied := cl.sc.ch
+		cl.sc.ch = nil // let the synchronous refresh of this call through
+		cl.sc.mu.Unlock()
+		cl.mu.Lock()
+		for _, s := range c20slots {
+			cl.wslots[s] = nil
+		}
+		cl.mu.Unlock()
+		defer func() {
+			cl.sc.mu.Lock()
+			if cl.sc.ch == nil {
+				cl.sc.ch = occupied
+			}
+			cl.sc.mu.Unlock()
+			env.forget()
+		}()
+	}
 	if c.API == "multi" {
 		cmdsIn := make([]Completed, len(run.mem))
 		for i, m := range run.mem {
@@ -923,6 +946,28 @@ func TestVerif_C20(t *testing.T) {
 					}
 				} else if r.WantSample() && len(run.faults) == 2 && run.blockLo >= 0 {
 					r.Sample(map[string]any{"case": c, "node_calls": run.calls, "results_checked": run.lastReply})
+				}
+				noMoved := true
+				for _, f := range script {
+					if f[2] >= 1 && f[2] <= 3 { // moved0..moved2
+						noMoved = false
+					}
+				}
+				if noMoved && (run.blockLo >= 0 || len(script) <= 1) {
+					c2 := c
+					c2.NoOwner = true
+					r.Evaluations++
+					r.StateStr(key + "|noowner")
+					if run2, viol2 := c20runCase(env, c2); len(viol2) > 0 {
+						fresh := c20newEnv()
+						run3, viol3 := c20runCase(fresh, c2)
+						fresh.cl.Close()
+						if len(viol3) > 0 {
+							c20report(r, c2, run3, viol3)
+						} else {
+							r.Note("violation seen only on the long-lived client (no-owner variant): " + viol2[0][0] + " / " + c20desc(c2, run2))
+						}
+					}
 				}
 				if r.Evaluations%2000 == 0 && r.TimeUp() {
 					stop = true
